@@ -78,7 +78,12 @@ def matrix_spec(draw, nd):
     if abs(np.linalg.det(M)) < 1e-6:
         for i in range(nd):
             m[i][i] += 4.0
-    return {"kind": "affine", "matrix": m, "pattern": kind}
+    tiny = draw(st.sampled_from([None, None, None, 0, 1, 2]))
+    if tiny is not None and tiny < nd:
+        # one world axis in very small units (e.g. a wavelength in metres): its coefficients are scaled by 2**-40 (exact)
+        for j in range(nd + 1):
+            m[tiny][j] = m[tiny][j] * 2.0 ** -40
+    return {"kind": "affine", "matrix": m, "pattern": kind, "tiny_row": tiny if tiny is not None and tiny < nd else None}
 
 
 def world_grid(cspec, shape):
@@ -142,7 +147,7 @@ def fn_coords(spec, rec):
         for v, vtag in ((None, "full"), (view, "view:" + vs[0])):
             got = guard(lambda: np.asarray(link.compute(d, v)), "coordinate-link")
             exp = exp_full if v is None else exp_full[v]
-            if got.shape != exp.shape or not np.allclose(got, exp, rtol=tol, atol=tol):
+            if got.shape != exp.shape or not np.allclose(got, exp, rtol=tol, atol=tol * (2.0 ** -40 if (cspec.get("tiny_row") is not None and tol == 0.0) else 1.0)):
                 raise Mismatch("coordinate-link-wrong/%s/%s" % (tag, pat), {"axis": i, "view": vtag, "got": got.tolist(), "expected": exp.tolist()})
     # 3. the coordinate object itself: world_to_pixel undoes pixel_to_world
     if nd == 1:
@@ -174,7 +179,7 @@ def fn_coords(spec, rec):
         sym = np.array_equal(corr, corr.T)
         diag = np.array_equal(corr, np.eye(nd, dtype=bool))
         rec.nt((not sym) or (not diag and not corr.all()))
-    rec.label("pattern:" + pat, "ndim:%d" % nd, "view:" + vs[0])
+    rec.label("pattern:" + pat, "ndim:%d" % nd, "view:" + vs[0], "tiny-scale-axis" if cspec.get("tiny_row") is not None else "ordinary-scales")
 
 
 @st.composite
